@@ -18,15 +18,23 @@ type State struct {
 	heaps map[string]*Term
 	path  []*Term
 	seen  map[string]bool // facts already in path (by key)
+	hist  map[types.Object][]Value // every value assigned to a local on this path, in order
+	tmps  map[string]Value         // last value of every evaluated compound expression, by source text
 }
 
 func newState() *State {
-	return &State{vars: map[types.Object]Value{}, heaps: map[string]*Term{}, seen: map[string]bool{}}
+	return &State{vars: map[types.Object]Value{}, heaps: map[string]*Term{}, seen: map[string]bool{}, hist: map[types.Object][]Value{}, tmps: map[string]Value{}}
 }
 
 func (s *State) clone() *State {
 	n := &State{vars: make(map[types.Object]Value, len(s.vars)), heaps: make(map[string]*Term, len(s.heaps)),
-		seen: make(map[string]bool, len(s.seen))}
+		seen: make(map[string]bool, len(s.seen)), hist: make(map[types.Object][]Value, len(s.hist)), tmps: make(map[string]Value, len(s.tmps))}
+	for k, v := range s.tmps {
+		n.tmps[k] = v
+	}
+	for k, v := range s.hist {
+		n.hist[k] = v[:len(v):len(v)]
+	}
 	for k, v := range s.vars {
 		n.vars[k] = v
 	}
@@ -61,7 +69,22 @@ func (s *State) assume(t *Term) {
 
 func (s *State) declare(o types.Object, v Value) {
 	s.vars[o] = v
+	s.hist[o] = append(s.hist[o][:len(s.hist[o]):len(s.hist[o])], v)
 	s.scope = append(s.scope, o)
+}
+
+// version returns the n-th value (1-based) assigned to the local called name on this path.
+func (s *State) version(name string, n int) (Value, bool) {
+	for i := len(s.scope) - 1; i >= 0; i-- {
+		if s.scope[i].Name() == name {
+			h := s.hist[s.scope[i]]
+			if n >= 1 && n <= len(h) {
+				return h[n-1], true
+			}
+			return nil, false
+		}
+	}
+	return nil, false
 }
 
 func (s *State) lookupName(name string) (Value, bool) {
@@ -92,6 +115,7 @@ type FuncCtx struct {
 	assumed  []string // notes on things assumed while executing (for evidence)
 	inputs   []string
 	lemmaFacts []*Term // function-level lemma instances evaluated at exit
+	defs     map[string]*Term // definitions of the named intermediate values
 }
 
 func shortPkg(p string) string {
@@ -129,6 +153,10 @@ func (c *FuncCtx) named(st *State, prefix string, t *Term, typ types.Type) *Term
 	}
 	v := Var(c.freshName(prefix), SInt)
 	st.assume(Eq(v, t))
+	if c.defs == nil {
+		c.defs = map[string]*Term{}
+	}
+	c.defs[v.Name] = t
 	if typ != nil {
 		c.noteRange(st, v, typ)
 	}
@@ -173,6 +201,29 @@ func (c *FuncCtx) oblige(st *State, kind, detail string, goal *Term, at ast.Node
 	o.Assume = append(append([]*Term(nil), st.path...), extra...)
 	c.obls = append(c.obls, o)
 	return o
+}
+
+// product multiplies two code-level values.  When an operand is a named intermediate value,
+// the product is also related to the expanded product of its definition (an instance of
+// l = r => l*f = r*f), so that facts about the definition's monomials reach the product.
+func (c *FuncCtx) product(st *State, a, b *Term) *Term {
+	p := Mul(a, b)
+	for _, pr := range [][2]*Term{{a, b}, {b, a}} {
+		x, y := pr[0], pr[1]
+		if y.IsConst() || y.Size() > 40 {
+			continue
+		}
+		seen := map[string]bool{}
+		x.walk(func(t *Term) {
+			if t.Op == "var" && !seen[t.Name] {
+				seen[t.Name] = true
+				if d, ok := c.defs[t.Name]; ok && d.Size() < 200 {
+					st.assume(Eq(Mul(t, y), Mul(d, y)))
+				}
+			}
+		})
+	}
+	return p
 }
 
 // symValue materialises a symbolic value of Go type t.
